@@ -78,12 +78,15 @@ def t_ignore_filter(ex):
         return
     r = out.value
     bad = []
-    for loc, want in (("/x/.keep", True), ("/x/.keep_pkg-0", True), ("/etc/conf", False)) + tuple((e.rstrip("/") + "/inside", True) for e in entries if "*" not in e) + \
+    # not ignored: paths that merely begin like an ignored directory (its siblings), and paths that hold an entry somewhere in their middle
+    outside = tuple((e.rstrip("/") + tail, False) for e in entries if "*" not in e for tail in (".conf", ".d/site.conf", "-data/db", "2")) + \
+        tuple(("/etc" + e.rstrip("/*") + "/x.conf", False) for e in entries if e.startswith("/"))
+    for loc, want in (("/x/.keep", True), ("/x/.keep_pkg-0", True), ("/etc/conf", False)) + outside + tuple((e.rstrip("/") + "/inside", True) for e in entries if "*" not in e) + \
             ((("/lib/modules/5.1/k.ko", True),) if any(e.startswith("/lib/modules") for e in entries) else ()) + ((("/etc/x.bak", True),) if "*.bak" in entries else ()):
         got = bool(r.match(loc))
         if got != want:
             bad.append((loc, got, want))
-    ex.oblige(f"{P}.ensures.keep_files_and_everything_below_an_ignored_directory_are_ignored", not bad, note=f"{bad[:4]}")
+    ex.oblige(f"{P}.ensures.keep_files_and_exactly_what_lies_below_an_ignored_directory_are_ignored", not bad, note=f"(location, ignored, expected): {bad[:4]}")
 
 
 PENDING = ([], ["._cfg0000_conf"], ["._cfg0000_conf", "._cfg0002_conf"], ["._cfg0001_conf", "._cfg0000_other", "._cfgXXXX_conf", "._cfg0007conf", "unrelated"], ["._cfg0003_conf", "._cfg0001_conf", "._cfg0002_conf"])
@@ -160,7 +163,8 @@ def t_uninstall_trigger(ex):
     from pkgcore.fs import fs, contents
     prot, ign, same = bool(ex.choose(2)), bool(ex.choose(2)), bool(ex.choose(2))
     gone = bool(ex.choose(2))
-    P = f"C21.ConfigProtectUninstall.trigger[{'protected' if prot else 'unprotected'}, {'ignored' if ign else 'not ignored'}, {'unchanged' if same else 'edited'}{', vanished' if gone else ''}]"
+    replace_mode = bool(ex.choose(2))   # in a replace the engine also hands over old_cset, from which it rebuilds the removal set at the unmerge step
+    P = f"C21.ConfigProtectUninstall.trigger[{'protected' if prot else 'unprotected'}, {'ignored' if ign else 'not ignored'}, {'unchanged' if same else 'edited'}{', vanished' if gone else ''}{', replace' if replace_mode else ''}]"
     it = Interp(ex, label=P)
     loc = "/etc/conf"
     rec = fs.fsFile(loc, strict=False, mode=0o644)
@@ -180,7 +184,9 @@ def t_uninstall_trigger(ex):
             raise PyRaise(FileNotFoundError(2, "gone"))
         return same
     it.models[t.simple_chksum_compare] = m_cmp
-    out = call(it, it.target(TRG, "ConfigProtectUninstall.trigger"), SObj(t.ConfigProtectUninstall, {}), types.SimpleNamespace(offset="/"), existing, uninstall, recorded_cset)
+    old_cset = contents.contentsSet([fs.fsFile(loc, strict=False, mode=0o600), fs.fsFile("/usr/bin/tool", strict=False)])
+    args = (existing, uninstall, recorded_cset) + ((old_cset,) if replace_mode else ())
+    out = call(it, it.target(TRG, "ConfigProtectUninstall.trigger"), SObj(t.ConfigProtectUninstall, {}), types.SimpleNamespace(offset="/"), *args)
     ex.oblige(f"{P}.raises.nothing", not out.raised, kind="exceptional-postcondition")
     if out.raised:
         return
@@ -188,6 +194,8 @@ def t_uninstall_trigger(ex):
               all({id(a), id(b)} == {id(rec), id(live)} for a, b in compared) and (len(compared) == 1) == (prot and not ign), kind="effect-invariant")
     kept = prot and not ign and not same and not gone
     ex.oblige(f"{P}.ensures.an_edited_protected_file_is_taken_off_the_removal_list_and_nothing_else", sorted(x.location for x in uninstall) == sorted(([] if kept else [loc]) + ["/usr/bin/tool"]))
+    if replace_mode:
+        ex.oblige(f"{P}.ensures.and_off_the_set_the_replace_rebuilds_its_removal_list_from", sorted(x.location for x in old_cset) == sorted(([] if kept else [loc]) + ["/usr/bin/tool"]))
 
 
 # ------------------------------------------------------------------ bounded stand-in: real triggers + merge in scratch roots ----
@@ -298,11 +306,25 @@ def enum_roots(seed):
                     pkg_ = types.SimpleNamespace(contents=contents.contentsSet(livefs.scan(img, offset=img)), cpvstr="cat/pkg-1")
                     tmp_ = os.path.join(scratch, f"t{s}")
                     os.makedirs(tmp_)
-                    e_ = _engine.MergeEngine.uninstall(tmp_, pkg_, offset=root, observer=_Obs(), disable_plugins=True)
-                    t.ConfigProtectUninstall().register(e_)
-                    e_.execute_hook("pre_unmerge")
-                    model = dict(model, through_the_merge_engine=True)
-                    ops.unmerge_contents(e_.csets["uninstall"])
+                    if s % 4 == 1:
+                        e_ = _engine.MergeEngine.uninstall(tmp_, pkg_, offset=root, observer=_Obs(), disable_plugins=True)
+                        t.ConfigProtectUninstall().register(e_)
+                        e_.execute_hook("pre_unmerge")
+                        model = dict(model, through_the_merge_engine="uninstall")
+                        ops.unmerge_contents(e_.csets["uninstall"])
+                    else:
+                        # a replacement by a version that no longer ships the files: the engine runs merge first, then the unmerge of what is left
+                        from pkgcore.merge import triggers as _mt
+                        img2 = os.path.join(scratch, f"v2-{s}")
+                        os.makedirs(os.path.join(img2, "usr/share"))
+                        open(os.path.join(img2, "usr/share/v2"), "w").write("2")
+                        new_ = types.SimpleNamespace(contents=contents.contentsSet(livefs.scan(img2, offset=img2)), cpvstr="cat/pkg-2")
+                        e_ = _engine.MergeEngine.replace(tmp_, pkg_, new_, offset=root, observer=_Obs(), disable_plugins=True)
+                        for trg in (t.ConfigProtectInstall(), t.ConfigProtectUninstall(), _mt.merge(), _mt.unmerge()):
+                            trg.register(e_)
+                        for hook in ("sanity_check", "pre_merge", "merge", "post_merge", "pre_unmerge", "unmerge", "post_unmerge", "final"):
+                            e_.execute_hook(hook)
+                        model = dict(model, through_the_merge_engine="replace by a version without these files")
                 else:
                     # as the engine hands them over: the live entries twice (uninstall_existing is an alias of uninstall) and the recorded contents
                     t.ConfigProtectUninstall().trigger(eng, un_existing, un_existing, uninstall)
@@ -319,7 +341,7 @@ def enum_roots(seed):
     finally:
         shutil.rmtree(scratch, ignore_errors=True)
     return {"name": "C21.config_protect.bounded_enumeration", "bound": "60 seeded scratch roots: 5 env.d variants (CONFIG_PROTECT / _MASK with and without trailing slash, COLLISION_IGNORE naming a directory), 4 of 7 files each absent / "
-            "identical / edited, random pending ._cfg files (identical or not), ConfigProtectInstall + merge_contents + restore, then local edits + ConfigProtectUninstall + unmerge_contents (every other root through MergeEngine.uninstall's own unmerge sets)", "cases": cases, "failures": fails}
+            "identical / edited, random pending ._cfg files (identical or not), ConfigProtectInstall + merge_contents + restore, then local edits + ConfigProtectUninstall + unmerge_contents (every other root through the merge engine's own wiring: MergeEngine.uninstall, or MergeEngine.replace by a version that no longer ships the files)", "cases": cases, "failures": fails}
 
 
 def tasks():
